@@ -70,6 +70,8 @@ type Run struct {
 	lockSnap   map[string]*State
 	constCell  map[string]*Val // cell address -> the single value ever stored (write-once variables)
 	constCand  map[string]bool
+	coverPcs   map[string][]string
+	coverPos   map[string]string
 }
 
 type cellRec struct {
@@ -270,6 +272,8 @@ type Frame struct {
 	loopEntry  map[*ssa.BasicBlock]*State
 	rangeIdxFn map[int]string
 	spawned    bool                // goroutine body executed at its go statement (spawn_inline)
+	inlineBase map[ssa.Instruction]map[string]int // per inlinable call: anchor counts before it
+	callSite   ssa.Instruction                    // the call in the parent frame this inlined frame executes
 	curIns     ssa.Instruction     // instruction being executed
 	dbgAll     map[string][]dbgRec // every value reference of a source variable, with its position
 }
@@ -383,6 +387,21 @@ func (fr *Frame) computeAnchors() {
 		switch in := rc.in.(type) {
 		case *ssa.Call:
 			add(in, "call "+fr.r.calleeName(&in.Call))
+			if callee := fr.r.eng.inlinableCallee(&in.Call); callee != nil {
+				// statements of a helper that has no contract of its own are numbered as if they stood
+				// at the call: extracting lines into a helper (or inlining one) keeps ordinals stable
+				snap := map[string]int{}
+				for k, v := range cnt {
+					snap[k] = v
+				}
+				if fr.inlineBase == nil {
+					fr.inlineBase = map[ssa.Instruction]map[string]int{}
+				}
+				fr.inlineBase[in] = snap
+				for base, n := range fr.r.eng.staticAnchorCounts(callee, 0) {
+					cnt[base] += n
+				}
+			}
 			// a second name keyed by the first string-literal argument, stable when other calls of
 			// the same function are inserted or removed: call fmt.Sprintf("PLUGIN_MIN_PORT=%d")#1
 			for i, a := range in.Call.Args {
@@ -603,6 +622,7 @@ func (r *Run) requireGF(st *State, kind, fname, name string, cond, fact string, 
 		}
 		return
 	}
+	assumeAfter := cond != "false" && fact != "false"
 	if r.dry == 0 {
 		full := fname + "/" + kind + "/" + name
 		r.oblNames[full]++
@@ -610,6 +630,11 @@ func (r *Run) requireGF(st *State, kind, fname, name string, cond, fact string, 
 			full = fmt.Sprintf("%s~%d", full, n)
 		}
 		goal := cond
+		if k := matchKnown(r.eng.known, "", full); k != nil {
+			// an obligation recorded as a known finding is expected to fail: it must not be assumed
+			// afterwards, or everything downstream of it would be proved vacuously
+			assumeAfter = false
+		}
 		if k := matchKnown(r.eng.known, "", full); k != nil && k.regionExpr != nil && r.topFrame != nil && r.topFrame.entry != nil {
 			// known finding delimited by a region R over the entry state: the obligation must
 			// hold outside R; inside R it is expected to fail (reported as KNOWN-FINDING).
@@ -625,8 +650,12 @@ func (r *Run) requireGF(st *State, kind, fname, name string, cond, fact string, 
 		}
 		r.obls = append(r.obls, &Obligation{Name: full, Kind: kind, Func: fname, Tags: tags, Pos: r.eng.pos(pos), Text: text,
 			NFacts: r.facts.Len(), Pc: st.pc, Goal: goal})
+	} else if matchKnown(r.eng.known, "", fname+"/"+kind+"/"+name) != nil {
+		assumeAfter = false
 	}
-	r.facts.Assert(sImp(st.pc, fact))
+	if assumeAfter {
+		r.facts.Assert(sImp(st.pc, fact))
+	}
 }
 
 func (r *Run) assume(st *State, cond string) {
@@ -1178,4 +1207,83 @@ func sameVal(a, b Val) bool {
 		return a.Fn == b.Fn
 	}
 	return a.S == b.S
+}
+
+// inlinableCallee: the module function a call will be inlined into its caller (no contract of its own).
+func (e *Engine) inlinableCallee(c *ssa.CallCommon) *ssa.Function {
+	callee := c.StaticCallee()
+	if callee == nil || len(callee.Blocks) == 0 || !e.isModuleFunc(callee) || callee.Parent() != nil {
+		return nil
+	}
+	if fc := e.cs.Funcs[e.funcName(callee)]; fc != nil && fc.Flags["inline"] == nil {
+		return nil
+	}
+	return callee
+}
+
+// anchorBasesOf lists the anchor base names an instruction contributes (shared by numbering and counting).
+func (e *Engine) anchorBasesOf(calleeName func(*ssa.CallCommon) string, ins ssa.Instruction) []string {
+	var out []string
+	switch in := ins.(type) {
+	case *ssa.Call:
+		out = append(out, "call "+calleeName(&in.Call))
+		for i, a := range in.Call.Args {
+			if i > 1 {
+				break
+			}
+			if c, ok := a.(*ssa.Const); ok && c.Value != nil && c.Value.Kind() == constant.String {
+				out = append(out, "call "+calleeName(&in.Call)+"("+strconv.Quote(constant.StringVal(c.Value))+")")
+				break
+			}
+		}
+	case *ssa.Go:
+		out = append(out, "call "+calleeName(&in.Call), "go")
+	case *ssa.Select:
+		out = append(out, "select")
+	case *ssa.Send:
+		out = append(out, "send")
+	case *ssa.UnOp:
+		if in.Op == token.ARROW {
+			out = append(out, "recv")
+		}
+	case *ssa.TypeAssert:
+		out = append(out, "typeassert")
+	case *ssa.Store:
+		if fa, ok := in.Addr.(*ssa.FieldAddr); ok {
+			if st := structOf(fa.X.Type()); st != nil {
+				out = append(out, "store "+structKey(fa.X.Type())+"."+st.Field(fa.Field).Name())
+			}
+		}
+		if g, ok := in.Addr.(*ssa.Global); ok {
+			out = append(out, "store global "+shortPkgDot(g.Pkg.Pkg.Path())+g.Name())
+		}
+	case *ssa.MapUpdate:
+		out = append(out, "mapupdate")
+	}
+	return out
+}
+
+// staticAnchorCounts counts, per base name, the anchors a function contributes when inlined
+// (its own statements plus those of helpers it would inline in turn).
+func (e *Engine) staticAnchorCounts(fn *ssa.Function, depth int) map[string]int {
+	out := map[string]int{}
+	if depth > 3 {
+		return out
+	}
+	tmp := &Run{eng: e}
+	for _, b := range fn.Blocks {
+		for _, ins := range b.Instrs {
+			for _, base := range e.anchorBasesOf(tmp.calleeName, ins) {
+				out[base]++
+			}
+			if c, ok := ins.(*ssa.Call); ok {
+				if callee := e.inlinableCallee(&c.Call); callee != nil && callee != fn {
+					for k, v := range e.staticAnchorCounts(callee, depth+1) {
+						out[k] += v
+					}
+				}
+			}
+		}
+	}
+	return out
 }
